@@ -69,6 +69,7 @@ type broker struct {
 	token   string
 	rogues  []*rogueObs
 	got     chan struct{}
+	release chan struct{} // closed when the dial under test has returned
 	others  func() []string
 	earlier []string
 	proxy   string
@@ -294,8 +295,12 @@ func (b *broker) serve(wg *sync.WaitGroup) {
 			_ = c.Close()
 		}
 	}
-	// keep the request socket open a little so a late failure reply is not mistaken for a close
-	time.Sleep(10 * time.Millisecond)
+	// a broker that has nothing (more) to say keeps the request socket open until the dial is over: closing
+	// it is itself a verdict (the requester reads it as the broker failing), which the script did not ask for
+	select {
+	case <-b.release:
+	case <-time.After(3 * time.Second):
+	}
 }
 
 func isTimeout(err error) bool {
@@ -320,7 +325,7 @@ func runDial(c Case, earlier []string) (dialOutcome, []*broker) {
 		if err != nil {
 			panic(err)
 		}
-		b := &broker{ln: ln, script: bs, got: make(chan struct{}), earlier: earlier, proxy: c.Proxy}
+		b := &broker{ln: ln, script: bs, got: make(chan struct{}), release: make(chan struct{}), earlier: earlier, proxy: c.Proxy}
 		if c.Nested && b.proxy == "" {
 			b.proxy = "right"
 		}
@@ -371,6 +376,9 @@ func runDial(c Case, earlier []string) (dialOutcome, []*broker) {
 	t0 := time.Now()
 	o.conn, o.err = ccb.Dial(context.Background(), contacts, opts)
 	o.elapsed = time.Since(t0)
+	for _, b := range brokers {
+		close(b.release)
+	}
 	if o.conn != nil {
 		_ = o.conn.SetReadDeadline(time.Now().Add(1500 * time.Millisecond))
 		m, err := stream.NewStream(o.conn).ReceiveCompleteMessage(context.Background())
